@@ -2,22 +2,23 @@
     well-formedness and Hermiticity of E_ij / V_j, E_ji = -E_ij, {E_ij, V_i} = {E_ij, V_j} = 0,
     [E_ij, V_k] = 0, the closed form of the assembled operator and its Hermiticity for real
     coefficients, and the index round trips of the face-centred lattice. *)
-From Qib Require Export Compact.CompactRel Pauli.PauliProofs2.
+From Qib Require Export Pauli.PauliProofs2.
+From Qib Require Export Compact.CompactRel.
 Ltac Zify.zify_post_hook ::= Z.to_euclidean_division_equations.
 Local Open Scope Z_scope.
 
 (* ------------------------------------------------------------------------------------ *)
-(** * lists: upd, falses, dot products with one-hot vectors *)
+(** * lists: lupd, falses, dot products with one-hot vectors *)
 
-Lemma upd_length {A} k (v : A) l : length (upd k v l) = length l.
+Lemma lupd_length {A} k (v : A) l : length (lupd k v l) = length l.
 Proof. revert k; induction l as [|h t IH]; intros [|k]; cbn; auto. Qed.
 
-Lemma nth_upd {A} k j (v d : A) l :
-  nth k (upd j v l) d = if Nat.eqb k j && Nat.ltb j (length l) then v else nth k l d.
+Lemma nth_lupd {A} k j (v d : A) l :
+  nth k (lupd j v l) d = if Nat.eqb k j && Nat.ltb j (length l) then v else nth k l d.
 Proof.
   revert k j; induction l as [|h t IH]; intros k j.
   - destruct j; cbn; rewrite andb_false_r; reflexivity.
-  - destruct j as [|j], k as [|k]; cbn [upd nth length]; try reflexivity.
+  - destruct j as [|j], k as [|k]; cbn [lupd nth length]; try reflexivity.
     rewrite IH. change (Nat.eqb (Datatypes.S k) (Datatypes.S j)) with (Nat.eqb k j).
     change (Nat.ltb (Datatypes.S j) (Datatypes.S (length t))) with (Nat.ltb j (length t)). reflexivity.
 Qed.
@@ -36,9 +37,9 @@ Proof.
   f_equal; [exact (H O)|]. apply IH; [cbn in Hl; lia|]. intros k. exact (H (Datatypes.S k)).
 Qed.
 
-Lemma upd_false_falses k n : upd k false (falses n) = falses n.
+Lemma lupd_false_falses k n : lupd k false (falses n) = falses n.
 Proof.
-  apply list_ext_nth; [apply upd_length|]. intros j. rewrite nth_upd, nth_falses.
+  apply list_ext_nth; [apply lupd_length|]. intros j. rewrite nth_lupd, nth_falses.
   destruct (_ && _); reflexivity.
 Qed.
 
@@ -49,12 +50,12 @@ Proof. revert a; induction n as [|n IH]; intros [|x a]; cbn; auto. Qed.
 
 (** dot product with a one-hot vector reads one entry *)
 Lemma dotnat_onehot a : forall k n, length a = n ->
-  dotnat a (upd k true (falses n)) = if nth k a false then 1%nat else 0%nat.
+  dotnat a (lupd k true (falses n)) = if nth k a false then 1%nat else 0%nat.
 Proof.
   induction a as [|x a IH]; intros k n Hl.
   - cbn. destruct k; reflexivity.
   - destruct n as [|n]; [discriminate|]. cbn in Hl. injection Hl as Hl.
-    destruct k as [|k]; cbn [falses upd dotnat nth].
+    destruct k as [|k]; cbn [falses lupd dotnat nth].
     + rewrite dotnat_falses_r, andb_true_r. destruct x; reflexivity.
     + rewrite andb_false_r, (IH k n Hl). reflexivity.
 Qed.
@@ -66,7 +67,7 @@ Definition in_n (n i : Z) : Prop := 0 <= i < n.
 
 Lemma arg_step_some n z x s i z' x' :
   arg_step n (Some (z, x)) (s, i) = Some (z', x') ->
-  in_n n i /\ z' = upd (Z.to_nat i) (letter_z s) z /\ x' = upd (Z.to_nat i) (letter_x s) x.
+  in_n n i /\ z' = lupd (Z.to_nat i) (letter_z s) z /\ x' = lupd (Z.to_nat i) (letter_x s) x.
 Proof.
   unfold arg_step, in_n. destruct (i <? 0) eqn:E1; [discriminate|]. destruct (n <=? i) eqn:E2; [discriminate|].
   cbn. intros H. injection H as <- <-. repeat split; lia.
@@ -108,16 +109,16 @@ Proof.
   assert (Tb : (Z.to_nat b <? Z.to_nat n)%nat = true) by (apply Nat.ltb_lt; lia).
   destruct (f =? -1) eqn:Ef.
   - cbn [fold_left] in H. injection H as <-. cbn [pz px pq].
-    repeat split; try lia; try (rewrite !upd_length, falses_length; reflexivity); try (left; lia);
-      intros k; rewrite !nth_upd, !upd_length, falses_length, nth_falses, Ta, Tb, !andb_true_r; reflexivity.
+    repeat split; try lia; try (rewrite !lupd_length, falses_length; reflexivity); try (left; lia);
+      intros k; rewrite !nth_lupd, !lupd_length, falses_length, nth_falses, Ta, Tb, !andb_true_r; reflexivity.
   - cbn [fold_left set_step] in H.
     destruct (f <? - n) eqn:F1; [cbn in H; discriminate|]. destruct (n <=? f) eqn:F2; [cbn in H; discriminate|].
     cbn [orb] in H. injection H as <-. cbn [pz px pq].
     assert (Ff : 0 <= f < n) by lia.
     assert (Tf : (Z.to_nat f <? Z.to_nat n)%nat = true) by (apply Nat.ltb_lt; lia).
     rewrite (Z.mod_small f n) by lia.
-    repeat split; try lia; try (rewrite !upd_length, falses_length; reflexivity); try (right; lia);
-      intros k; rewrite !nth_upd, !upd_length, falses_length, nth_falses, Ta, Tb, Tf, !andb_true_r; reflexivity.
+    repeat split; try lia; try (rewrite !lupd_length, falses_length; reflexivity); try (right; lia);
+      intros k; rewrite !nth_lupd, !lupd_length, falses_length, nth_falses, Ta, Tb, Tf, !andb_true_r; reflexivity.
 Qed.
 
 (* ------------------------------------------------------------------------------------ *)
@@ -239,7 +240,7 @@ Qed.
 (** V_j = Z on qubit j, identity elsewhere, q = 0 *)
 Lemma vertex_inv r c x y V : m_vertex r c x y = Some V ->
   exists k, np_ravel2 r c x y = Some k /\ 0 <= k < m_nsites r c /\
-    pz V = upd (Z.to_nat k) true (falses (nq r c)) /\ px V = falses (nq r c) /\ pq V = 0.
+    pz V = lupd (Z.to_nat k) true (falses (nq r c)) /\ px V = falses (nq r c) /\ pq V = 0.
 Proof.
   unfold m_vertex, m_coord_to_index, obind.
   destruct (np_ravel2 r c x y) as [k|] eqn:R; [|discriminate].
@@ -248,13 +249,13 @@ Proof.
   apply arg_step_some in A. destruct A as [Ik [-> ->]].
   intros H; injection H as <-. exists k. cbn [pz px pq]. unfold in_n in Ik.
   repeat split; try lia; try reflexivity.
-  change (letter_x 3) with false. apply upd_false_falses.
+  change (letter_x 3) with false. apply lupd_false_falses.
 Qed.
 
 Lemma vertex_wf r c x y V : m_vertex r c x y = Some V -> wfp (nq r c) V /\ pherm V = true.
 Proof.
   intros H. destruct (vertex_inv _ _ _ _ _ H) as [k [_ [_ [Hz [Hx Hq]]]]].
-  unfold wfp, pherm. rewrite Hz, Hx, Hq, upd_length, falses_length. repeat split.
+  unfold wfp, pherm. rewrite Hz, Hx, Hq, lupd_length, falses_length. repeat split.
 Qed.
 
 (** E_ij: X / Y on the two endpoints (x-bit set on both), a letter with x-bit set on the face
@@ -344,3 +345,691 @@ Proof.
       destruct (ravel_inj _ _ _ _ _ _ _ Rk Rj) as [-> ->]. rewrite !Z.eqb_refl in T. discriminate. }
   rewrite A, B. destruct (_ || _); reflexivity.
 Qed.
+
+(* ------------------------------------------------------------------------------------ *)
+(** * general facts about strings used below (any length) *)
+
+Lemma dot_bxor_parity (a : list bool) : forall b c d,
+  length a = length b -> length a = length c -> length a = length d ->
+  (dotz (bxor a b) (bxor c d) - dotz a c - dotz a d - dotz b c - dotz b d) mod 2 = 0.
+Proof.
+  unfold dotz. induction a as [|x a IH]; intros [|y b] [|u c] [|v d] H1 H2 H3; try discriminate; [reflexivity|].
+  cbn in H1, H2, H3. injection H1 as H1. injection H2 as H2. injection H3 as H3.
+  specialize (IH b c d H1 H2 H3).
+  rewrite !bxor_cons. cbn [dotnat]. rewrite !Nat2Z.inj_add.
+  destruct x, y, u, v; cbn [xorb andb]; change (Z.of_nat 1) with 1; change (Z.of_nat 0) with 0; lia.
+Qed.
+
+Lemma dotz_comm a b : dotz a b = dotz b a.
+Proof. unfold dotz. rewrite dotb_comm. reflexivity. Qed.
+
+(** parity of q of a product: sum of the parities plus one iff the factors anticommute *)
+Lemma pmul_parity n p p' : wfp n p -> wfp n p' ->
+  pq (pmul p p') mod 2 = (pq p + pq p' + (if pcommutes p p' then 0 else 1)) mod 2.
+Proof.
+  intros [Hz Hx] [Hz' Hx'].
+  pose proof (dot_bxor_parity (pz p) (pz p') (px p) (px p') ltac:(congruence) ltac:(congruence) ltac:(congruence)) as P.
+  unfold pmul, qprod, pcommutes. cbn [pq].
+  rewrite (dotz_comm (pz p') (px p)) in P.
+  set (A := dotz (pz p) (px p)) in *. set (B := dotz (pz p') (px p')) in *.
+  set (C := dotz (bxor (pz p) (pz p')) (bxor (px p) (px p'))) in *.
+  set (D := dotz (px p) (pz p')) in *. set (F := dotz (pz p) (px p')) in *.
+  clearbody A B C D F.
+  destruct ((D + F) mod 2 =? 0) eqn:E; [apply Z.eqb_eq in E|apply Z.eqb_neq in E]; lia.
+Qed.
+
+Lemma falses_dot n : dotz (falses n) (falses n) = 0.
+Proof. unfold dotz. rewrite dotnat_falses_r. reflexivity. Qed.
+
+Lemma pidentity_wf n : wfp (Z.to_nat n) (pidentity n).
+Proof. split; apply falses_length. Qed.
+
+Section MatFacts.
+  Context {K : Scalar} {L : ScalarLaws K}.
+  Local Open Scope K_scope.
+  Add Ring KringCp : (s_ring K L).
+
+  Lemma zx_falses n : forall r c, length r = n -> length c = n ->
+    zx_mat (falses n) (falses n) r c = (if beq r c then 1 else 0) :> K.
+  Proof.
+    induction n as [|n IH]; intros [|rb r] [|cb c] Hr Hc; try discriminate; [reflexivity|].
+    cbn in Hr, Hc. injection Hr as Hr. injection Hc as Hc.
+    cbn [falses zx_mat beq]. rewrite (IH r c Hr Hc).
+    destruct rb, cb; cbn; destruct (beq r c); ring.
+  Qed.
+
+  (** the identity string has the identity matrix *)
+  Lemma pidentity_matrix n r c : length r = Z.to_nat n -> length c = Z.to_nat n ->
+    pmatrix (pidentity n) r c = mid r c :> K.
+  Proof.
+    intros Hr Hc. unfold pmatrix, pidentity, mid. cbn [pz px pq].
+    rewrite falses_dot, (zx_falses _ r c Hr Hc). cbn. ring.
+  Qed.
+
+  (** a string with odd q has an anti-Hermitian matrix *)
+  Lemma panti_sound p r c : pq p mod 2 = 1%Z -> (pmatrix p c r)^* = - pmatrix p r c :> K.
+  Proof.
+    intros H. rewrite !pmatrix_kron, (conj_mul K L), letters_mat_herm, (conj_mipz_odd _ H). ring.
+  Qed.
+  Lemma pherm_entry p r c : pq p mod 2 = 0%Z -> (pmatrix p c r)^* = pmatrix p r c :> K.
+  Proof.
+    intros H. rewrite !pmatrix_kron, (conj_mul K L), letters_mat_herm, (conj_mipz_even _ H). ring.
+  Qed.
+
+  (** anticommuting strings have anticommuting matrices *)
+  Theorem panticommutes_sound n p p' : wfp n p -> wfp n p' -> pcommutes p p' = false ->
+    forall r c, length r = n -> length c = n ->
+      mmul n (pmatrix p) (pmatrix p') r c = - mmul n (pmatrix p') (pmatrix p) r c :> K.
+  Proof.
+    intros W W' Hc r c Hr Hcc.
+    rewrite !(mmul_pmatrix n) by assumption.
+    rewrite pcommutes_even in Hc.
+    assert (S : sgn (dotb (px p) (pz p')) = - sgn (dotb (px p') (pz p)) :> K).
+    { unfold sgn. rewrite Nat.even_add in Hc.
+      destruct (Nat.even (dotb (px p) (pz p'))), (Nat.even (dotb (px p') (pz p))); try discriminate; ring. }
+    rewrite S, (bxor_comm (pz p')), (bxor_comm (px p')). ring.
+  Qed.
+
+  (* ---------- operators: Hermiticity invariant ---------- *)
+  (** a weighted string is "Hermitian as a term": real weight on an even-q string or purely
+      imaginary weight on an odd-q string *)
+  Definition wH (w : wstr (K:=K)) : Prop :=
+    (pq (fst w) mod 2 = 0%Z /\ (snd w)^* = snd w) \/ (pq (fst w) mod 2 = 1%Z /\ (snd w)^* = - snd w).
+
+  Lemma wH_entry w r c : wH w -> (wmatrix w c r)^* = wmatrix w r c.
+  Proof.
+    unfold wmatrix. intros [[Hq Hw]|[Hq Hw]]; rewrite (conj_mul K L), Hw.
+    - rewrite (pherm_entry _ r c Hq). reflexivity.
+    - rewrite (panti_sound _ r c Hq). ring.
+  Qed.
+
+  Lemma opmatrix_herm op : Forall wH op -> forall r c, (opmatrix op c r)^* = opmatrix op r c.
+  Proof.
+    induction 1 as [|w op Hw _ IH]; intros r c; [apply (conj_0 K L)|].
+    rewrite !opmatrix_cons, (conj_add K L), IH, (wH_entry _ r c Hw). reflexivity.
+  Qed.
+
+  Lemma add_wH op ps : Forall wH op -> wH ps -> Forall wH (add_pauli_string op ps).
+  Proof.
+    induction 1 as [|w op Hw Hop IH]; intros Hps; cbn [add_pauli_string]; [constructor; auto|].
+    destruct (peqb (fst w) (fst ps)) eqn:E.
+    - constructor; [|exact Hop]. apply peqb_eq in E. unfold wH in *. cbn [fst snd]. rewrite <- E in Hps.
+      destruct Hw as [[Q1 W1]|[Q1 W1]], Hps as [[Q2 W2]|[Q2 W2]]; try lia; [left|right]; split; auto;
+        rewrite (conj_add K L), W1, W2; ring.
+    - constructor; auto.
+  Qed.
+
+  (* ---------- operators: "every string satisfies P" is kept by merge-on-insert ---------- *)
+  Lemma add_strings (P : pstr -> Prop) (op : list (wstr (K:=K))) ps :
+    Forall (fun w => P (fst w)) op -> P (fst ps) -> Forall (fun w => P (fst w)) (add_pauli_string op ps).
+  Proof.
+    induction 1 as [|w op Hw Hop IH]; intros Hps; cbn [add_pauli_string]; [constructor; auto|].
+    destruct (peqb (fst w) (fst ps)); constructor; auto.
+  Qed.
+
+  (** an operator all of whose strings commute with L commutes with L as a matrix *)
+  Lemma opmatrix_commutes n Ls (op : list (wstr (K:=K))) : wfp n Ls ->
+    Forall (fun w => wfp n (fst w) /\ pcommutes (fst w) Ls = true) op ->
+    meq n (mmul n (opmatrix op) (pmatrix Ls)) (mmul n (pmatrix Ls) (opmatrix op)).
+  Proof.
+    intros WL. induction 1 as [|w op [Ww Cw] _ IH]; intros r c Hr Hc.
+    - unfold mmul. rewrite !bsum_zero; [reflexivity| |]; intros; cbv beta; unfold opmatrix; cbn [fold_right]; ring.
+    - unfold mmul in *.
+      transitivity (snd w * bsum n (fun k => pmatrix (fst w) r k * pmatrix Ls k c)
+                    + bsum n (fun k => opmatrix op r k * pmatrix Ls k c)).
+      { rewrite <- bsum_scal, <- bsum_add_fn. apply bsum_ext. intros k _. cbv beta.
+        change (opmatrix (w :: op) r k) with (wmatrix w r k + opmatrix op r k). unfold wmatrix. ring. }
+      rewrite (IH r c Hr Hc).
+      pose proof (pcommutes_sound n (fst w) Ls Ww WL Cw r c Hr Hc) as E. unfold mmul in E. rewrite E.
+      rewrite <- bsum_scal, <- bsum_add_fn. apply bsum_ext. intros k _. cbv beta.
+      change (opmatrix (w :: op) k c) with (wmatrix w k c + opmatrix op k c). unfold wmatrix. ring.
+  Qed.
+End MatFacts.
+
+(* ------------------------------------------------------------------------------------ *)
+(** * the assembled operator *)
+
+Definition getp (o : option pstr) : pstr := match o with Some p => p | None => pidentity 0 end.
+(** V_i and E_ij of fermionic sites i, j (row-major indices on the r x c grid) *)
+Definition Vt (r c : Z) (i : nat) : pstr := getp (vertex_at r c (fcoord r c i)).
+Definition Et (r c : Z) (i j : nat) : pstr := getp (edge_at r c (fcoord r c i) (fcoord r c j)).
+
+Lemma vertex_at_some r c p V : vertex_at r c p = Some V ->
+  exists x y, p = Some (CInt x y) /\ m_vertex r c x y = Some V.
+Proof. destruct p as [[x y|x y]|]; cbn; try discriminate. intros H. exists x, y. auto. Qed.
+Lemma edge_at_some r c p p' E : edge_at r c p p' = Some E ->
+  exists ix iy jx jy, p = Some (CInt ix iy) /\ p' = Some (CInt jx jy) /\ m_edge r c ix iy jx jy = Some E.
+Proof.
+  destruct p as [[ix iy|ix iy]|]; cbn; try discriminate.
+  destruct p' as [[jx jy|jx jy]|]; try discriminate. intros H. exists ix, iy, jx, jy. auto.
+Qed.
+
+(** the strings inserted for an edge have odd q: i/2 (E V_j - E V_i) is Hermitian *)
+Lemma hop_strings_odd r c p p' E Vi Vj :
+  edge_at r c p p' = Some E -> vertex_at r c p = Some Vi -> vertex_at r c p' = Some Vj ->
+  wfp (nq r c) E /\ wfp (nq r c) Vi /\ wfp (nq r c) Vj /\
+  pcommutes E Vi = false /\ pcommutes E Vj = false /\
+  pq (pmul E Vj) mod 2 = 1 /\ pq (pmul E Vi) mod 2 = 1.
+Proof.
+  intros HE HVi HVj.
+  destruct (edge_at_some _ _ _ _ _ HE) as [ix [iy [jx [jy [-> [-> HE']]]]]].
+  cbn in HVi, HVj.
+  destruct (edge_wf _ _ _ _ _ _ _ HE') as [WE PE].
+  destruct (vertex_wf _ _ _ _ _ HVi) as [WVi PVi]. destruct (vertex_wf _ _ _ _ _ HVj) as [WVj PVj].
+  pose proof (edge_vertex_commutation _ _ _ _ _ _ _ _ _ _ HE' HVi) as Ci.
+  pose proof (edge_vertex_commutation _ _ _ _ _ _ _ _ _ _ HE' HVj) as Cj.
+  rewrite !Z.eqb_refl in Ci, Cj. cbn [andb orb negb] in Ci. rewrite orb_true_r in Cj. cbn [negb] in Cj.
+  unfold pherm in PE, PVi, PVj. apply Z.eqb_eq in PE, PVi, PVj.
+  pose proof (pmul_parity _ _ _ WE WVi) as Qi. pose proof (pmul_parity _ _ _ WE WVj) as Qj.
+  rewrite Ci in Qi. rewrite Cj in Qj. repeat split; auto; try apply WE; try apply WVi; try apply WVj; lia.
+Qed.
+
+Lemma obind_some {A B} (o : option A) (f : A -> option B) b : obind o f = Some b -> exists a, o = Some a /\ f a = Some b.
+Proof. destruct o as [a|]; cbn; [|discriminate]. intros H. exists a. auto. Qed.
+
+Lemma fold_left_inv {A B} (P : A -> Prop) (f : A -> B -> A) (l : list B) :
+  (forall a x, In x l -> P a -> P (f a x)) -> forall a, P a -> P (fold_left f l a).
+Proof.
+  induction l as [|x l IH]; intros Hs a Ha; [exact Ha|]. cbn. apply IH.
+  - intros b y Hy. apply Hs. right; exact Hy.
+  - apply Hs; [left; reflexivity|exact Ha].
+Qed.
+
+Section EncProofs.
+  Context {K : Scalar} {L : ScalarLaws K}.
+  Local Open Scope K_scope.
+  Add Ring KringCe : (s_ring K L).
+  Variable half : K.
+  Variable isz : K -> bool.
+  Variable symb : K -> K -> bool.
+
+  Notation wstrK := (wstr (K:=K)).
+  Notation onsite := (onsite_step half).
+  Notation hop := (hop_step half isz).
+
+  (* ---------- any property of the inserted strings is an invariant ---------- *)
+  (** [P] holds for every string of the result as soon as it holds for every string the encoder can
+      insert on this shape (term_strings) and for the strings already present *)
+  Lemma encode_term_strings (P : pstr -> Prop) r c (h : coeffs) op op' :
+    (forall t p, In t (term_strings r c) -> t = Some p -> P p) ->
+    Forall (fun w : wstrK => P (fst w)) op ->
+    encode_term half isz symb r c op h = Some op' -> Forall (fun w : wstrK => P (fst w)) op'.
+  Proof.
+    intros HT Hop. unfold encode_term. destruct (negb _); [discriminate|].
+    set (N := Z.to_nat (r * c)).
+    assert (T1 : forall i, In i (seq 0 N) -> forall V, vertex_at r c (fcoord r c i) = Some V -> P V).
+    { intros i Hi V HV. apply (HT (Some V)); [|reflexivity]. unfold term_strings. fold N.
+      apply in_or_app. left. rewrite <- HV. apply (in_map (fun i => vertex_at r c (fcoord r c i))). exact Hi. }
+    assert (T2 : P (pidentity (m_nsites r c))).
+    { apply (HT (Some (pidentity (m_nsites r c)))); [|reflexivity]. unfold term_strings.
+      apply in_or_app. right. left. reflexivity. }
+    assert (T3 : forall ij, In ij (pairs N) -> forall p, In (Some p) (hop_strings r c ij) -> P p).
+    { intros ij Hij p Hp. apply (HT (Some p)); [|reflexivity]. unfold term_strings. fold N.
+      apply in_or_app. right. right. apply in_flat_map. exists ij. auto. }
+    pose (I1 := fun st : option (list wstrK * K) =>
+                  match st with Some (o, _) => Forall (fun w : wstrK => P (fst w)) o | None => True end).
+    assert (F1 : I1 (fold_left (onsite r c h) (seq 0 N) (Some (op, 0)))).
+    { apply fold_left_inv; [|exact Hop]. intros [[o idc]|] i Hi Ho; [|exact I].
+      unfold onsite_step. destruct (vertex_at r c (fcoord r c i)) as [V|] eqn:EV; [|exact I].
+      cbn. apply add_strings; [exact Ho|]. cbn. exact (T1 i Hi V EV). }
+    destruct (fold_left (onsite r c h) (seq 0 N) (Some (op, 0))) as [[op1 idc]|]; [|discriminate].
+    cbn in F1.
+    pose (I2 := fun st : option (list wstrK) =>
+                  match st with Some o => Forall (fun w : wstrK => P (fst w)) o | None => True end).
+    intros H.
+    assert (F2 : I2 (fold_left (hop r c h) (pairs N)
+                       (Some (add_pauli_string op1 (pidentity (m_nsites r c), idc))))).
+    { apply fold_left_inv; [|cbn; apply add_strings; auto].
+      intros [o|] [i j] Hij Ho; [|exact I]. unfold hop_step.
+      destruct (isz (h i j)); [exact Ho|]. destruct (negb _); [exact I|].
+      destruct (edge_at r c (fcoord r c i) (fcoord r c j)) as [E|] eqn:EE; [|exact I].
+      destruct (vertex_at r c (fcoord r c i)) as [Vi|] eqn:EVi; [|exact I].
+      destruct (vertex_at r c (fcoord r c j)) as [Vj|] eqn:EVj; [|exact I].
+      cbn. apply add_strings; [apply add_strings; [exact Ho|]|]; cbn;
+        apply (T3 (i, j) Hij); unfold hop_strings; cbn [fst snd]; rewrite EE, EVi, EVj; cbn; auto. }
+    rewrite H in F2. exact F2.
+  Qed.
+
+  Lemma encode_strings (P : pstr -> Prop) r c (hs : list coeffs) op :
+    (forall t p, In t (term_strings r c) -> t = Some p -> P p) ->
+    encode half isz symb r c hs = Some op -> Forall (fun w : wstrK => P (fst w)) op.
+  Proof.
+    intros HT. unfold encode.
+    assert (G : forall st, match st with Some o => Forall (fun w : wstrK => P (fst w)) o | None => True end ->
+               forall op, fold_left (fun st h => obind st (fun op => encode_term half isz symb r c op h)) hs st = Some op ->
+               Forall (fun w : wstrK => P (fst w)) op).
+    { induction hs as [|h hs IH]; intros st Hst op' H; cbn in H.
+      - subst st. exact Hst.
+      - eapply IH; [|exact H].
+        destruct st as [o|]; cbn; [|exact I].
+        destruct (encode_term half isz symb r c o h) as [o'|] eqn:E; [|exact I].
+        eapply encode_term_strings; eauto. }
+    intros H. apply (G (Some []) (Forall_nil _) op H).
+  Qed.
+End EncProofs.
+
+Section EncProofs2.
+  Context {K : Scalar} {L : ScalarLaws K}.
+  Local Open Scope K_scope.
+  Add Ring KringCf : (s_ring K L).
+  Variable half : K.
+  Variable isz : K -> bool.
+  Variable symb : K -> K -> bool.
+  Notation wstrK := (wstr (K:=K)).
+  Notation onsite := (onsite_step half).
+  Notation hop := (hop_step half isz).
+
+  Lemma fold_onsite_none r c h l : fold_left (onsite r c h) l None = None.
+  Proof. induction l; cbn; auto. Qed.
+  Lemma fold_hop_none r c h l : fold_left (hop r c h) l None = None.
+  Proof. induction l; cbn; auto. Qed.
+
+  (* ---------- Hermiticity for real coefficients (symmetry of h is not even needed: only the
+                upper triangle is read) ---------- *)
+  Section Herm.
+    Hypothesis half_real : half^* = half.
+
+    Lemma encode_term_wH r c (h : coeffs) op op' :
+      (forall i j, (h i j)^* = h i j) -> Forall wH op ->
+      encode_term half isz symb r c op h = Some op' -> Forall (wH (K:=K)) op'.
+    Proof.
+      intros Hh Hop. unfold encode_term. destruct (negb _); [discriminate|].
+      set (N := Z.to_nat (r * c)).
+      pose (I1 := fun st : option (list wstrK * K) =>
+                    match st with Some (o, idc) => Forall wH o /\ idc^* = idc | None => True end).
+      assert (F1 : I1 (fold_left (onsite r c h) (seq 0 N) (Some (op, 0)))).
+      { apply fold_left_inv; [|split; [exact Hop|apply (conj_0 K L)]].
+        intros [[o idc]|] i _ Ho; [|exact I]. destruct Ho as [Ho Hi].
+        unfold onsite_step. destruct (vertex_at r c (fcoord r c i)) as [V|] eqn:EV; [|exact I].
+        destruct (vertex_at_some _ _ _ _ EV) as [x [y [_ HV]]].
+        destruct (vertex_wf _ _ _ _ _ HV) as [_ PV]. unfold pherm in PV. apply Z.eqb_eq in PV.
+        cbn. split.
+        - apply add_wH; [exact Ho|]. left. cbn [fst snd]. split; [exact PV|].
+          rewrite (conj_opp K L), (conj_mul K L), half_real, Hh. reflexivity.
+        - rewrite (conj_add K L), (conj_mul K L), half_real, Hh, Hi. reflexivity. }
+      destruct (fold_left (onsite r c h) (seq 0 N) (Some (op, 0))) as [[op1 idc]|]; [|discriminate].
+      destruct F1 as [F1 Hidc].
+      pose (I2 := fun st : option (list wstrK) => match st with Some o => Forall wH o | None => True end).
+      intros H.
+      assert (F2 : I2 (fold_left (hop r c h) (pairs N)
+                         (Some (add_pauli_string op1 (pidentity (m_nsites r c), idc))))).
+      { apply fold_left_inv.
+        2:{ cbn. apply add_wH; [exact F1|]. left. cbn [fst snd pidentity pq]. split; [reflexivity|exact Hidc]. }
+        intros [o|] [i j] _ Ho; [|exact I]. unfold hop_step.
+        destruct (isz (h i j)); [exact Ho|]. destruct (negb _); [exact I|].
+        destruct (edge_at r c (fcoord r c i) (fcoord r c j)) as [E|] eqn:EE; [|exact I].
+        destruct (vertex_at r c (fcoord r c i)) as [Vi|] eqn:EVi; [|exact I].
+        destruct (vertex_at r c (fcoord r c j)) as [Vj|] eqn:EVj; [|exact I].
+        destruct (hop_strings_odd _ _ _ _ _ _ _ EE EVi EVj) as [_ [_ [_ [_ [_ [Oj Oi]]]]]].
+        pose proof (conj_I K L) as CI.
+        cbn. apply add_wH; [apply add_wH; [exact Ho|]|]; right; cbn [fst snd]; (split; [assumption|]).
+        - rewrite !(conj_mul K L), half_real, Hh, CI. ring.
+        - rewrite (conj_opp K L), !(conj_mul K L), half_real, Hh, CI. ring. }
+      rewrite H in F2. exact F2.
+    Qed.
+
+    Theorem encode_hermitian r c (hs : list coeffs) op :
+      (forall h, In h hs -> forall i j, (h i j)^* = h i j) ->
+      encode half isz symb r c hs = Some op -> hermitian (K:=K) (nq r c) (opmatrix op).
+    Proof.
+      intros Hh H.
+      assert (W : Forall (wH (K:=K)) op).
+      { revert H. unfold encode.
+        assert (G : forall st, match st with Some o => Forall (wH (K:=K)) o | None => True end ->
+                   (forall h, In h hs -> forall i j, (h i j)^* = h i j) ->
+                   forall op, fold_left (fun st h => obind st (fun op => encode_term half isz symb r c op h)) hs st = Some op ->
+                   Forall (wH (K:=K)) op).
+        { clear Hh. induction hs as [|h hs IH]; intros st Hst Hh op' H; cbn in H.
+          - subst st. exact Hst.
+          - eapply IH; [| |exact H].
+            + destruct st as [o|]; cbn; [|exact I].
+              destruct (encode_term half isz symb r c o h) as [o'|] eqn:E; [|exact I].
+              eapply encode_term_wH; eauto. apply Hh. left. reflexivity.
+            + intros h' Hin. apply Hh. right. exact Hin. }
+        apply (G (Some []) (Forall_nil _) Hh). }
+      intros rr cc _ _. unfold madj. apply opmatrix_herm. exact W.
+    Qed.
+  End Herm.
+
+  (* ---------- closed form ---------- *)
+  Section Closed.
+    Hypothesis isz_ok : forall w, isz w = true -> w = 0.
+
+    Definition hop_entry (r c : Z) (h : coeffs) (rr cc : list bool) (ij : nat * nat) : K :=
+      h (fst ij) (snd ij) * (sI * half)
+      * (mmul (nq r c) (pmatrix (Et r c (fst ij) (snd ij))) (pmatrix (Vt r c (snd ij))) rr cc
+         - mmul (nq r c) (pmatrix (Et r c (fst ij) (snd ij))) (pmatrix (Vt r c (fst ij))) rr cc).
+    Definition onsite_entry (r c : Z) (h : coeffs) (rr cc : list bool) (i : nat) : K :=
+      h i i * half * (mid rr cc - pmatrix (Vt r c i) rr cc).
+    (** sum_i h_ii 1/2 (1 - V_i) + sum_{i<j} h_ij (i/2) (E_ij V_j - E_ij V_i), entry (rr, cc) *)
+    Definition spec_entry (r c : Z) (h : coeffs) (rr cc : list bool) : K :=
+      lsum (map (onsite_entry r c h rr cc) (seq 0 (Z.to_nat (r * c))))
+      + lsum (map (hop_entry r c h rr cc) (pairs (Z.to_nat (r * c)))).
+
+    Lemma onsite_fold r c h l : forall o idc o' idc',
+      fold_left (onsite r c h) l (Some (o, idc)) = Some (o', idc') ->
+      (forall rr cc, opmatrix o' rr cc
+                     = opmatrix o rr cc + lsum (map (fun i => - (half * h i i) * pmatrix (Vt r c i) rr cc) l))
+      /\ idc' = idc + lsum (map (fun i => half * h i i) l).
+    Proof.
+      induction l as [|a l IH]; intros o idc o' idc' H; cbn [fold_left] in H.
+      - injection H as <- <-. split; [intros|]; cbn [map]; rewrite lsum_nil; ring.
+      - unfold onsite_step at 2 in H.
+        destruct (vertex_at r c (fcoord r c a)) as [V|] eqn:EV; [|rewrite fold_onsite_none in H; discriminate].
+        destruct (IH _ _ _ _ H) as [A B]. split.
+        + intros rr cc. rewrite A, add_pauli_string_matrix. cbn [map]. rewrite lsum_cons.
+          unfold wmatrix, Vt. rewrite EV. cbn [fst snd getp]. ring.
+        + rewrite B. cbn [map]. rewrite lsum_cons. ring.
+    Qed.
+
+    Lemma hop_fold r c h l : forall o o',
+      fold_left (hop r c h) l (Some o) = Some o' ->
+      forall rr cc, length rr = nq r c -> length cc = nq r c ->
+        opmatrix o' rr cc = opmatrix o rr cc + lsum (map (hop_entry r c h rr cc) l).
+    Proof.
+      induction l as [|[i j] l IH]; intros o o' H rr cc Hr Hc; cbn [fold_left] in H.
+      - injection H as <-. cbn [map]. rewrite lsum_nil. ring.
+      - unfold hop_step at 2 in H. cbn [map]. rewrite lsum_cons. unfold hop_entry at 1. cbn [fst snd].
+        destruct (isz (h i j)) eqn:Z0.
+        { rewrite (IH _ _ H rr cc Hr Hc), (isz_ok _ Z0). ring. }
+        destruct (negb _); [rewrite fold_hop_none in H; discriminate|].
+        destruct (edge_at r c (fcoord r c i) (fcoord r c j)) as [E|] eqn:EE; [|rewrite fold_hop_none in H; discriminate].
+        destruct (vertex_at r c (fcoord r c i)) as [Vi|] eqn:EVi; [|rewrite fold_hop_none in H; discriminate].
+        destruct (vertex_at r c (fcoord r c j)) as [Vj|] eqn:EVj; [|rewrite fold_hop_none in H; discriminate].
+        destruct (hop_strings_odd _ _ _ _ _ _ _ EE EVi EVj) as [WE [WVi [WVj _]]].
+        rewrite (IH _ _ H rr cc Hr Hc), !add_pauli_string_matrix.
+        unfold wmatrix, Et, Vt. rewrite EE, EVi, EVj. cbn [fst snd getp].
+        rewrite (pmul_matrix _ _ _ WE WVj rr cc Hr Hc), (pmul_matrix _ _ _ WE WVi rr cc Hr Hc). ring.
+    Qed.
+
+    Lemma onsite_sum_form (h : coeffs) (V : nat -> K) (m : K) l :
+      lsum (map (fun i => - (half * h i i) * V i) l) + (0 + lsum (map (fun i => half * h i i) l)) * m
+      = lsum (map (fun i => h i i * half * (m - V i)) l).
+    Proof. induction l as [|a l IH]; cbn [map]; rewrite ?lsum_cons, ?lsum_nil; [ring|]. rewrite <- IH. ring. Qed.
+
+    (** the matrix of what the encoder builds from one create/annihilate term *)
+    Theorem encode_term_closed_form r c (h : coeffs) op op' :
+      encode_term half isz symb r c op h = Some op' ->
+      forall rr cc, length rr = nq r c -> length cc = nq r c ->
+        opmatrix op' rr cc = opmatrix op rr cc + spec_entry r c h rr cc.
+    Proof.
+      unfold encode_term. destruct (negb _); [discriminate|].
+      destruct (fold_left (onsite r c h) _ _) as [[op1 idc]|] eqn:F1; [|discriminate].
+      intros H rr cc Hr Hc.
+      destruct (onsite_fold _ _ _ _ _ _ _ _ F1) as [A B].
+      rewrite (hop_fold _ _ _ _ _ _ H rr cc Hr Hc), add_pauli_string_matrix, A, B.
+      unfold wmatrix. cbn [fst snd]. rewrite (pidentity_matrix _ rr cc Hr Hc).
+      unfold spec_entry, onsite_entry.
+      rewrite <- (onsite_sum_form h (fun i => pmatrix (Vt r c i) rr cc) (mid rr cc)). ring.
+    Qed.
+
+    Theorem encode_closed_form r c (hs : list coeffs) op :
+      encode half isz symb r c hs = Some op ->
+      forall rr cc, length rr = nq r c -> length cc = nq r c ->
+        opmatrix op rr cc = lsum (map (fun h => spec_entry r c h rr cc) hs).
+    Proof.
+      unfold encode.
+      assert (G : forall st o, fold_left (fun st h => obind st (fun op => encode_term half isz symb r c op h)) hs st = Some o ->
+                 exists o0, st = Some o0 /\ forall rr cc, length rr = nq r c -> length cc = nq r c ->
+                   opmatrix o rr cc = opmatrix o0 rr cc + lsum (map (fun h => spec_entry r c h rr cc) hs)).
+      { induction hs as [|h hs IH]; intros st o H; cbn [fold_left] in H.
+        - exists o. split; [exact H|]. intros. cbn [map]. rewrite lsum_nil. ring.
+        - destruct (IH _ _ H) as [o1 [E1 F]].
+          destruct (obind_some _ _ _ E1) as [o0 [-> E0]]. exists o0. split; [reflexivity|].
+          intros rr cc Hr Hc. rewrite (F rr cc Hr Hc), (encode_term_closed_form _ _ _ _ _ E0 rr cc Hr Hc).
+          cbn [map]. rewrite lsum_cons. ring. }
+      intros H rr cc Hr Hc. destruct (G _ _ H) as [o0 [E F]]. injection E as <-.
+      rewrite (F rr cc Hr Hc). rewrite opmatrix_nil. ring.
+    Qed.
+  End Closed.
+End EncProofs2.
+
+(* ------------------------------------------------------------------------------------ *)
+(** * index maps of the face-centred lattice are mutually inverse (every shape) *)
+
+Lemma unravel_ravel r c i : 0 <= i < r * c -> 1 <= c ->
+  np_unravel2 r c i = Some (CInt (i / c) (i mod c)) /\ np_ravel2 r c (i / c) (i mod c) = Some i.
+Proof.
+  intros Hi Hc. unfold np_unravel2, np_ravel2.
+  assert (A : 0 <= i / c < r) by (split; [apply Z.div_pos; lia | apply Z.div_lt_upper_bound; lia]).
+  assert (B : 0 <= i mod c < c) by (apply Z.mod_pos_bound; lia).
+  replace (0 <=? i) with true by (symmetry; apply Z.leb_le; lia).
+  replace (i <? r * c) with true by (symmetry; apply Z.ltb_lt; lia).
+  replace (0 <=? i / c) with true by (symmetry; apply Z.leb_le; lia).
+  replace (i / c <? r) with true by (symmetry; apply Z.ltb_lt; lia).
+  replace (0 <=? i mod c) with true by (symmetry; apply Z.leb_le; lia).
+  replace (i mod c <? c) with true by (symmetry; apply Z.ltb_lt; lia).
+  cbn. split; [reflexivity|]. f_equal. rewrite Z.mul_comm. symmetry. apply Z.div_mod. lia.
+Qed.
+
+Theorem vertex_index_roundtrip r c i : 1 <= c -> 0 <= i < r * c ->
+  exists x y, m_index_to_coord r c i = Some (CInt x y) /\ m_coord_to_index r c (CInt x y) = Some i
+              /\ 0 <= x < r /\ 0 <= y < c.
+Proof.
+  intros Hc Hi. destruct (unravel_ravel r c i Hi Hc) as [A B].
+  exists (i / c), (i mod c). unfold m_index_to_coord, m_coord_to_index.
+  replace (i <? r * c) with true by (symmetry; apply Z.ltb_lt; lia).
+  repeat split; auto; try (apply ravel_some in B; lia).
+Qed.
+
+Theorem vertex_coord_roundtrip r c x y : 0 <= x < r -> 0 <= y < c ->
+  exists i, m_coord_to_index r c (CInt x y) = Some i /\ m_index_to_coord r c i = Some (CInt x y) /\ 0 <= i < r * c.
+Proof.
+  intros Hx Hy. exists (x * c + y). unfold m_coord_to_index, m_index_to_coord, np_ravel2, np_unravel2.
+  assert (x * c <= (r - 1) * c) by nia. assert (0 <= x * c) by nia.
+  replace (0 <=? x) with true by (symmetry; apply Z.leb_le; lia).
+  replace (x <? r) with true by (symmetry; apply Z.ltb_lt; lia).
+  replace (0 <=? y) with true by (symmetry; apply Z.leb_le; lia).
+  replace (y <? c) with true by (symmetry; apply Z.ltb_lt; lia).
+  replace (x * c + y <? r * c) with true by (symmetry; apply Z.ltb_lt; lia).
+  replace (0 <=? x * c + y) with true by (symmetry; apply Z.leb_le; lia).
+  cbn. repeat split; try lia. f_equal. f_equal.
+  - symmetry. apply (Z.div_unique (x * c + y) c x y); lia.
+  - symmetry. apply (Z.mod_unique (x * c + y) c x y); lia.
+Qed.
+
+(** face part, in terms of w = c - 1 >= 1 and the face-local index k = i - r*c (DESIGN A.4) *)
+Lemma face_local_roundtrip w k R : 1 <= w -> 0 <= k -> 2 * k < R * w ->
+  let x := 2 * k / w in
+  let y := 2 * (k - (x * w + 1) / 2) + x mod 2 in
+  (x * w + 1) / 2 + y / 2 = k /\ (x + y) mod 2 = 0 /\ 0 <= y < w /\ 0 <= x < R.
+Proof.
+  intros Hw Hk HR. cbv zeta.
+  set (x := 2 * k / w).
+  assert (Hx : x * w <= 2 * k < x * w + w) by (unfold x; nia).
+  assert (Hx0 : 0 <= x) by (unfold x; apply Z.div_pos; lia).
+  assert (HxR : x < R) by nia.
+  clearbody x.
+  destruct (Z.even x) eqn:E.
+  - apply Z.even_spec in E. destruct E as [m ->].
+    replace (2 * m * w) with (2 * (m * w)) in * by ring.
+    set (p := m * w) in *. clearbody p. lia.
+  - assert (O : Z.odd x = true) by (rewrite <- Z.negb_even, E; reflexivity).
+    apply Z.odd_spec in O. destruct O as [m ->].
+    replace ((2 * m + 1) * w) with (2 * (m * w) + w) in * by ring.
+    set (p := m * w) in *. clearbody p. lia.
+Qed.
+
+Lemma face_local_roundtrip_inv w x y : 1 <= w -> 0 <= x -> 0 <= y < w -> (x + y) mod 2 = 0 ->
+  let k := (x * w + 1) / 2 + y / 2 in
+  2 * k / w = x /\ 2 * (k - (x * w + 1) / 2) + x mod 2 = y /\ 0 <= k /\ 2 * k < (x + 1) * w.
+Proof.
+  intros Hw Hx Hy Hp. cbv zeta.
+  assert (Q : forall k, x * w <= 2 * k < x * w + w -> 2 * k / w = x).
+  { intros k Hk. symmetry. apply (Z.div_unique (2 * k) w x (2 * k - x * w)); lia. }
+  destruct (Z.even x) eqn:E.
+  - apply Z.even_spec in E. destruct E as [m ->].
+    replace (2 * m * w) with (2 * (m * w)) in * by ring.
+    replace ((2 * m + 1) * w) with (2 * (m * w) + w) by ring.
+    assert (0 <= m * w) by nia.
+    set (p := m * w) in *. clearbody p.
+    split; [apply Q; lia|]. lia.
+  - assert (O : Z.odd x = true) by (rewrite <- Z.negb_even, E; reflexivity).
+    apply Z.odd_spec in O. destruct O as [m ->].
+    replace ((2 * m + 1) * w) with (2 * (m * w) + w) in * by ring.
+    replace ((2 * m + 1 + 1) * w) with (2 * (m * w) + 2 * w) by ring.
+    assert (0 <= m * w) by nia.
+    set (p := m * w) in *. clearbody p.
+    split; [apply Q; lia|]. lia.
+Qed.
+
+Lemma nfaces_bound r c k : 2 <= c -> 0 <= k < ((r - 1) * (c - 1) + 1) / 2 -> 2 * k < (r - 1) * (c - 1).
+Proof. intros Hc Hk. set (p := (r - 1) * (c - 1)) in *. clearbody p. lia. Qed.
+
+(** index -> face coordinate -> index *)
+Theorem face_index_roundtrip r c i : 2 <= c -> r * c <= i < m_nsites r c ->
+  exists x y, m_index_to_coord r c i = Some (CHalf x y) /\ m_coord_to_index r c (CHalf x y) = Some i
+              /\ 0 <= x < r - 1 /\ 0 <= y < c - 1 /\ (x + y) mod 2 = 0.
+Proof.
+  intros Hc Hi. unfold m_nsites in Hi.
+  assert (Hk : 2 * (i - r * c) < (r - 1) * (c - 1)) by (apply nfaces_bound; lia).
+  destruct (face_local_roundtrip (c - 1) (i - r * c) (r - 1) ltac:(lia) ltac:(lia) Hk) as [A [B [C D]]].
+  cbv zeta in A, B, C, D.
+  unfold m_index_to_coord.
+  replace (i <? r * c) with false by (symmetry; apply Z.ltb_ge; lia).
+  replace (c - 1 =? 0) with false by (symmetry; apply Z.eqb_neq; lia).
+  cbv zeta.
+  set (x := 2 * (i - r * c) / (c - 1)) in *.
+  set (y := 2 * (i - r * c - (x * (c - 1) + 1) / 2) + x mod 2) in *.
+  exists x, y. split; [reflexivity|]. split; [|auto].
+  unfold m_coord_to_index, m_face_index.
+  replace ((x + y) mod 2 =? 1) with false by (symmetry; apply Z.eqb_neq; lia).
+  replace ((x <? 0) || (y <? 0) || (r - 1 <=? x) || (c - 1 <=? y)) with false.
+  2:{ symmetry. repeat (apply orb_false_iff; split); try (apply Z.ltb_ge; lia); apply Z.leb_gt; lia. }
+  f_equal. lia.
+Qed.
+
+(** face coordinate -> index -> face coordinate; the index lies in [r*c, nsites) *)
+Theorem face_coord_roundtrip r c x y : 0 <= x < r - 1 -> 0 <= y < c - 1 -> (x + y) mod 2 = 0 ->
+  exists i, m_coord_to_index r c (CHalf x y) = Some i /\ m_index_to_coord r c i = Some (CHalf x y)
+            /\ r * c <= i < m_nsites r c.
+Proof.
+  intros Hx Hy Hp.
+  destruct (face_local_roundtrip_inv (c - 1) x y ltac:(lia) ltac:(lia) Hy Hp) as [A [B [C D]]].
+  cbv zeta in A, B, C, D.
+  set (k := (x * (c - 1) + 1) / 2 + y / 2) in *.
+  exists (r * c + k). unfold m_coord_to_index, m_face_index.
+  replace ((x + y) mod 2 =? 1) with false by (symmetry; apply Z.eqb_neq; lia).
+  replace ((x <? 0) || (y <? 0) || (r - 1 <=? x) || (c - 1 <=? y)) with false.
+  2:{ symmetry. repeat (apply orb_false_iff; split); try (apply Z.ltb_ge; lia); apply Z.leb_gt; lia. }
+  split; [f_equal; unfold k; ring|].
+  assert (Hn : r * c + k < m_nsites r c).
+  { unfold m_nsites. assert ((x + 1) * (c - 1) <= (r - 1) * (c - 1)) by nia.
+    set (p := (r - 1) * (c - 1)) in *. set (q := (x + 1) * (c - 1)) in *. clearbody p q. lia. }
+  split; [|lia].
+  unfold m_index_to_coord.
+  replace (r * c + k <? r * c) with false by (symmetry; apply Z.ltb_ge; lia).
+  replace (c - 1 =? 0) with false by (symmetry; apply Z.eqb_neq; lia).
+  cbv zeta. replace (r * c + k - r * c) with k by ring. rewrite A, B. reflexivity.
+Qed.
+
+(** the face an edge is attached to is a valid auxiliary face (or there is none) *)
+Lemma edge_face_valid r c ix iy jx jy f : m_edge_face r c ix iy jx jy = Some f ->
+  f = -1 \/ r * c <= f < m_nsites r c.
+Proof.
+  intros H. pose proof H as H0. unfold m_edge_face in H.
+  destruct (negb (is_nn ix iy jx jy)) eqn:NN; [discriminate|]. apply negb_false_iff in NN.
+  cbv zeta in H.
+  destruct ((Z.min ix jx <? 0) || (Z.min iy jy <? 0) || (r <=? Z.min ix jx) || (c <=? Z.min iy jy)) eqn:B0; [discriminate|].
+  apply orb_false_iff in B0. destruct B0 as [B0 B4]. apply orb_false_iff in B0. destruct B0 as [B0 B3].
+  apply orb_false_iff in B0. destruct B0 as [B1 B2].
+  apply Z.ltb_ge in B1, B2. apply Z.leb_gt in B3, B4.
+  assert (P : let '(x, y) := m_edge_face_xy ix iy jx jy in (x + y) mod 2 = 0).
+  { unfold m_edge_face_xy. pose proof (is_nn_cases _ _ _ _ NN) as C.
+    destruct ((Z.min ix jx + Z.min iy jy) mod 2 =? 1) eqn:E; [apply Z.eqb_eq in E|apply Z.eqb_neq in E];
+      [destruct (ix =? jx)|]; lia. }
+  destruct (m_edge_face_xy ix iy jx jy) as [x y].
+  destruct ((x <? 0) || (y <? 0) || (r - 1 <=? x) || (c - 1 <=? y)) eqn:B; injection H as <-; [left; reflexivity|right].
+  apply orb_false_iff in B. destruct B as [B B8]. apply orb_false_iff in B. destruct B as [B B7].
+  apply orb_false_iff in B. destruct B as [B5 B6].
+  apply Z.ltb_ge in B5, B6. apply Z.leb_gt in B7, B8.
+  destruct (face_coord_roundtrip r c x y ltac:(lia) ltac:(lia) P) as [i [A [_ R]]].
+  unfold m_coord_to_index, m_face_index in A.
+  destruct ((x + y) mod 2 =? 1); [discriminate|].
+  destruct ((x <? 0) || (y <? 0) || (r - 1 <=? x) || (c - 1 <=? y)); [discriminate|].
+  injection A as <-. exact R.
+Qed.
+
+(* ------------------------------------------------------------------------------------ *)
+(** * definedness: on a lattice with r, c >= 1 every vertex and every nearest-neighbour pair
+      of the grid has its operator *)
+
+Lemma build_two_some n l1 a l2 b q s f :
+  in_n n a -> in_n n b -> (f = -1 \/ in_n n f) ->
+  exists p, build n {| d_args := [(l1, a); (l2, b)]; d_q := q; d_sets := sets_of f s |} = Some p.
+Proof.
+  unfold in_n. intros Ha Hb Hf. unfold build. cbn [d_args d_sets d_q fold_left]. unfold arg_step.
+  replace (a <? 0) with false by (symmetry; apply Z.ltb_ge; lia).
+  replace (n <=? a) with false by (symmetry; apply Z.leb_gt; lia).
+  replace (b <? 0) with false by (symmetry; apply Z.ltb_ge; lia).
+  replace (n <=? b) with false by (symmetry; apply Z.leb_gt; lia).
+  cbn [orb]. unfold sets_of. destruct (f =? -1) eqn:E.
+  - cbn. eexists. reflexivity.
+  - apply Z.eqb_neq in E. destruct Hf as [Hf|Hf]; [contradiction|].
+    cbn [fold_left set_step].
+    replace (f <? - n) with false by (symmetry; apply Z.ltb_ge; lia).
+    replace (n <=? f) with false by (symmetry; apply Z.leb_gt; lia).
+    cbn. eexists. reflexivity.
+Qed.
+
+Lemma nsites_ge r c : 1 <= r -> 1 <= c -> r * c <= m_nsites r c.
+Proof.
+  intros Hr Hc. unfold m_nsites. assert (0 <= (r - 1) * (c - 1)) by nia.
+  set (p := (r - 1) * (c - 1)) in *. clearbody p. lia.
+Qed.
+
+Theorem vertex_defined r c x y : 0 <= x < r -> 0 <= y < c -> exists V, m_vertex r c x y = Some V.
+Proof.
+  intros Hx Hy. destruct (vertex_coord_roundtrip r c x y Hx Hy) as [i [A [_ Bi]]].
+  unfold m_vertex. rewrite A. cbn [obind m_vertex_desc].
+  pose proof (nsites_ge r c ltac:(lia) ltac:(lia)) as N.
+  unfold build, mkdesc. cbn [d_args d_sets d_q fold_left]. unfold arg_step.
+  replace (i <? 0) with false by (symmetry; apply Z.ltb_ge; lia).
+  replace (m_nsites r c <=? i) with false by (symmetry; apply Z.leb_gt; lia).
+  cbn. eexists. reflexivity.
+Qed.
+
+Theorem edge_defined r c ix iy jx jy :
+  0 <= ix < r -> 0 <= iy < c -> 0 <= jx < r -> 0 <= jy < c -> is_nn ix iy jx jy = true ->
+  exists E, m_edge r c ix iy jx jy = Some E.
+Proof.
+  intros Hix Hiy Hjx Hjy NN.
+  destruct (vertex_coord_roundtrip r c ix iy Hix Hiy) as [ii [Ai [_ Bi]]].
+  destruct (vertex_coord_roundtrip r c jx jy Hjx Hjy) as [jj [Aj [_ Bj]]].
+  pose proof (nsites_ge r c ltac:(lia) ltac:(lia)) as N.
+  unfold m_edge. rewrite NN, Ai, Aj. cbn [negb obind].
+  destruct (m_edge_face r c ix iy jx jy) as [ff|] eqn:F.
+  2:{ exfalso. unfold m_edge_face in F. rewrite NN in F. cbn [negb] in F. cbv zeta in F.
+      replace ((Z.min ix jx <? 0) || (Z.min iy jy <? 0) || (r <=? Z.min ix jx) || (c <=? Z.min iy jy)) with false in F.
+      2:{ symmetry. repeat (apply orb_false_iff; split); try (apply Z.ltb_ge; lia); apply Z.leb_gt; lia. }
+      destruct (m_edge_face_xy ix iy jx jy) as [x y]. destruct (_ || _ || _ || _); discriminate. }
+  cbn [obind].
+  destruct (m_edge_desc ii jj ff ix iy jx jy) as [d|] eqn:D.
+  2:{ exfalso. unfold m_edge_desc in D. rewrite NN in D. cbn [negb] in D.
+      pose proof (is_nn_cases _ _ _ _ NN) as C.
+      destruct (ix =? jx) eqn:E1; [discriminate|]. destruct (iy =? jy) eqn:E2; [discriminate|].
+      apply Z.eqb_neq in E1, E2. lia. }
+  cbn [obind].
+  destruct (edge_desc_form _ _ _ _ _ _ _ _ D) as [l1 [a [l2 [b [q [s [-> [AB _]]]]]]]].
+  pose proof (edge_face_valid _ _ _ _ _ _ _ F) as FV.
+  apply build_two_some; unfold in_n.
+  - destruct AB as [[-> ->]|[-> ->]]; lia.
+  - destruct AB as [[-> ->]|[-> ->]]; lia.
+  - destruct FV as [->|FV]; [left; reflexivity|right; lia].
+Qed.
+
+(* ------------------------------------------------------------------------------------ *)
+(** * matrix of the sign-flipped string *)
+Section NegFacts.
+  Context {K : Scalar} {L : ScalarLaws K}.
+  Local Open Scope K_scope.
+  Add Ring KringCn : (s_ring K L).
+
+  Lemma pneg_matrix p r c : pmatrix (pneg p) r c = - pmatrix p r c :> K.
+  Proof.
+    unfold pmatrix, pneg. cbn [pz px pq].
+    rewrite <- (mipz_mod ((pq p + 2) mod 4 + _)), Zplus_mod_idemp_l, mipz_mod.
+    replace (pq p + 2 + dotz (pz p) (px p))%Z with (2 + (pq p + dotz (pz p) (px p)))%Z by ring.
+    rewrite (mipz_add 2). cbn. ring.
+  Qed.
+End NegFacts.
